@@ -27,6 +27,7 @@ renderings and the 64-bit directory names".
 import OccaProofs.Lemmas.DepHash
 import OccaProofs.Lemmas.DepHashWF
 import OccaProofs.Lemmas.HashExact
+import OccaProofs.Lemmas.DepHashExact
 
 namespace Occa.DepHash.C07
 open Occa.CacheKeyBase Occa.CacheKey Occa.DepHash
@@ -163,38 +164,41 @@ theorem C07_stale_build_needs_collision (e : DEnv κ String δ) (henc : e.enc = 
   · intro k k' hkk
     exact Classical.byContradiction fun hn => h2 ⟨k, k', hn, hkk⟩
 
-/-- the exact model (see `exactEnvW`) with the directory naming of io::hashDir (`getString()`),
-    the include scanner of the driver (`#include "…"` lines) and any expansion bound -/
-def exactDEnvW (openmp : Bool) (dev : WLanes) (depth : Nat) : DEnv WLanes String String :=
-  { exactEnvW openmp dev with dir := fun K => shortStr K.1, incl := scanIncludes, depth := depth }
-
-/-- The closed form for the exact model: after any history of builds of configurations with
-    well-formed property values, a build is stale, wrongly rejected or
-    fails in the key resolution only if two different strings have the same `occa::hash`, or two
-    different hashes have the same 16-character directory name. -/
-theorem C07_exact_stale_build_needs_collision (openmp : Bool) (dev : WLanes)
+/-- The closed form for the exact model: `exactDEnv` is the very instance the driver runs
+    (lean/Driver/Cache.lean: the hash_t model of C27, the dump model, the 16-character directory
+    names of io::hashDir, the scanner for `#include "…"` lines), whose hit/miss decisions and keys the
+    runner compares with the real builds.  After any history of builds of configurations with
+    well-formed property values, a build is stale, wrongly rejected or fails in the key resolution
+    only if two different strings have the same `occa::hash`, or two different hashes have the same
+    16-character directory name.  (Proved for `exactDEnvW`, which carries the well-formedness of
+    every hash, and transferred by the lock-step lemmas of Lemmas/DepHashExact.lean.) -/
+theorem C07_exact_stale_build_needs_collision (openmp : Bool) (dev : Hash.Lanes) (hdev : Hash.WellFormed dev)
     (depth : Nat)
     (compile : String × List (Option J) → List (String × String) → β)
     (fs0 : FS) (ops : List Op) (hops : ∀ c, Op.build c ∈ ops → c.WF) (c : Config) (hc : c.WF) :
     (∃ x y : String, x ≠ y ∧ hashStr x = hashStr y) ∨
     (∃ k k' : WLanes, k ≠ k' ∧ shortStr k.1 = shortStr k'.1) ∨
-    ((∀ b, ((build (exactDEnvW openmp dev depth) compile (reached (exactDEnvW openmp dev depth) compile fs0 ops).fs
-              (reached (exactDEnvW openmp dev depth) compile fs0 ops).cache c).2.1 = .hit b ∨
-           (build (exactDEnvW openmp dev depth) compile (reached (exactDEnvW openmp dev depth) compile fs0 ops).fs
-              (reached (exactDEnvW openmp dev depth) compile fs0 ops).cache c).2.1 = .miss b) →
-        ∃ x, expand scanIncludes (reached (exactDEnvW openmp dev depth) compile fs0 ops).fs depth (scanIncludes c.src) = some x ∧
+    ((∀ b, ((build (exactDEnv openmp dev depth) compile (reached (exactDEnv openmp dev depth) compile fs0 ops).fs
+              (reached (exactDEnv openmp dev depth) compile fs0 ops).cache c).2.1 = .hit b ∨
+           (build (exactDEnv openmp dev depth) compile (reached (exactDEnv openmp dev depth) compile fs0 ops).fs
+              (reached (exactDEnv openmp dev depth) compile fs0 ops).cache c).2.1 = .miss b) →
+        ∃ x, expand scanIncludes (reached (exactDEnv openmp dev depth) compile fs0 ops).fs depth (scanIncludes c.src) = some x ∧
           b = compile c.view x) ∧
-    ((build (exactDEnvW openmp dev depth) compile (reached (exactDEnvW openmp dev depth) compile fs0 ops).fs
-        (reached (exactDEnvW openmp dev depth) compile fs0 ops).cache c).2.1 = .parseError →
-        expand scanIncludes (reached (exactDEnvW openmp dev depth) compile fs0 ops).fs depth (scanIncludes c.src) = Option.none) ∧
-    (build (exactDEnvW openmp dev depth) compile (reached (exactDEnvW openmp dev depth) compile fs0 ops).fs
-        (reached (exactDEnvW openmp dev depth) compile fs0 ops).cache c).2.1 ≠ .chainError) := by
-  rcases C07_stale_build_needs_collision (exactDEnvW openmp dev depth) rfl (fun _ _ h => h)
-      (exactEnvW_full_inj openmp dev) (exactEnvW_tweak_inj openmp dev) (exactEnvW_full_wf openmp dev)
+    ((build (exactDEnv openmp dev depth) compile (reached (exactDEnv openmp dev depth) compile fs0 ops).fs
+        (reached (exactDEnv openmp dev depth) compile fs0 ops).cache c).2.1 = .parseError →
+        expand scanIncludes (reached (exactDEnv openmp dev depth) compile fs0 ops).fs depth (scanIncludes c.src) = Option.none) ∧
+    (build (exactDEnv openmp dev depth) compile (reached (exactDEnv openmp dev depth) compile fs0 ops).fs
+        (reached (exactDEnv openmp dev depth) compile fs0 ops).cache c).2.1 ≠ .chainError) := by
+  rcases C07_stale_build_needs_collision (exactDEnvW openmp ⟨dev, hdev⟩ depth) rfl (fun _ _ h => h)
+      (exactEnvW_full_inj openmp _) (exactEnvW_tweak_inj openmp _) (exactEnvW_full_wf openmp _)
       scanIncludes_keyOk compile fs0 ops hops c hc with ⟨x, y, hxy, hh⟩ | h2 | h3
   · exact Or.inl ⟨x, y, hxy, congrArg Subtype.val hh⟩
   · exact Or.inr (Or.inl h2)
-  · exact Or.inr (Or.inr h3)
+  · refine Or.inr (Or.inr ?_)
+    obtain ⟨hfs, hout⟩ := exact_outcome_eq openmp ⟨dev, hdev⟩ depth compile fs0 ops c
+    unfold reached at h3 ⊢
+    rw [hout, hfs]
+    exact h3
 
 /-- Why F11 needed a different chaining rather than a better hash: with the historical step —
     fold the current hashes of the recorded files into the key with a self-inverse operation
